@@ -99,7 +99,7 @@ class Gen:
                  probe: bool = False, allow_module_state: bool = False, loopcontrols: bool = False,
                  max_depth: int = 3, size: int = 6, compile_bias: bool = False,
                  env_globals: bool = False, template_globals: bool = False, stream: str = "w",
-                 native: bool = False) -> None:
+                 native: bool = False, pair_den: int = 3, debug_ext: bool = False) -> None:
         self.tape = tape
         self.sx = syntax
         self.is_async = is_async
@@ -112,6 +112,8 @@ class Gen:
         self.env_globals = env_globals  # environment globals gn (int) and gf (callable; awaitable in async mode)
         self.template_globals = template_globals  # template-level global tg passed to get_template(globals=...)
         self.stream = stream
+        self.debug_ext = debug_ext  # jinja2.ext.debug is loaded: {% debug %} dumps the context with pprint (repr of the data)
+        self.pair_den = pair_den  # 1 in pair_den modules gets the eval-context macro pair
         self.native = native  # NativeEnvironment: block-set literals become containers the template may mutate
         self.prog = Program()
         self.uid = 0
@@ -511,7 +513,20 @@ class Gen:
             s += self.tag(f"for {a_}, {b_} in d1|dictsort") + self.var(f"{a_} ~ {b_}") + self.tag("endfor")
         return s
 
+    CONST_ZOO = [
+        "'docs: http://example.org/x'|urlize(nofollow=true)", "'see www.example.org now'|urlize(rel='me friend', target='_top')",
+        "'http://example.com/a?b=1'|urlize(40, true, rel='x y z')", "{'b': 1, 'a': 2, 'c': [3]}|tojson", "{'b': 1, 'a': '<'}|xmlattr",
+        "{'b': 1, 'a': 2}|dictsort|list|string", "['b', 'a', 'b', 'c']|unique|join(',')", "{'k': 'v w', 'j': 1}|urlencode",
+        "['x', 'y', 'z']|join('|')|upper", "{'b': 1, 'a': 2}|items|list|string", "'a b c'|wordcount", "[3, 1, 2]|sort|join",
+        "{'b': {'y': 1, 'x': 2}}|tojson(indent=1)", "'%s-%s'|format('a', 'b')", "('a', 'b', 'c')|reverse|join",
+        "['aa', 'b']|map('length')|sum", "'a,b'|replace(',', ';')|title", "{'a': 1}|pprint", "[('b', 1), ('a', 2)]|groupby(0)|list|length",
+    ]
+
     def stmt(self, sc: Scope, depth: int) -> str:
+        if self.compile_bias and self.chance(1, 12):
+            # constant expressions: the optimizer evaluates them at compile time and their text lands in the source
+            self.prog.feat("constant_folded_filter")
+            return self.var(self.pick(self.CONST_ZOO))
         if self.compile_bias and not sc.closed and self.chance(2, 5):
             return self.bias_stmt(sc, depth)
         deep = depth >= self.max_depth
@@ -541,6 +556,7 @@ class Gen:
             3 if self.native else 0,  # 22 (native environments) container literal from a block set, mutated by the template
             2 if self.env_globals and sc.in_loop else (1 if self.env_globals else 0),  # 23 set + context-passing global reading it back
             2 if self.have_mod and self.cur_template not in ("mod", "inc") else 0,  # 24 print / include the module template itself
+            1 if self.debug_ext and not sc.closed else 0,  # 25 {% debug %}
         ]
         k = self.tape.weighted(weights, self.stream)
         P = self.prog
@@ -652,7 +668,7 @@ class Gen:
             return self.var(self.pick([
                 "loop.index", "loop.index0", "loop.first", "loop.last", "loop.length", "loop.revindex",
                 "loop.revindex0", "loop.cycle('a', 'b')", "loop.changed(loop.index0 // 2)", "loop.depth",
-                "loop.previtem|default('-')", "loop.nextitem|default('-')",
+                "loop.previtem|default('-')", "loop.nextitem|default('-')", "loop", "loop|length", "loop|attr('last')", "loop|attr('revindex')",
             ]))
         if k == 17:
             P.feat("loopcontrol")
@@ -661,7 +677,13 @@ class Gen:
             return self.tag("raw") + self.pick(["{{ x }}", "{% y %}", "r"]) + self.tag("endraw")
         if k == 20:
             P.feat("autoescape_block")
+            if self.cur_template == "mod":
+                # the block changes the eval context of the module's long-lived context while it runs (KF-C37-1)
+                P.tags.add("module_eval_ctx")
             return self.tag(f"autoescape {self.pick(['false', 'true'])}") + self.body(Scope(sc), depth + 1) + self.tag("endautoescape")
+        if k == 25:
+            P.feat("debug_tag")
+            return self.tag("debug")
         if k == 23:
             # a @pass_context global gets a context derived for THIS call (loop / block variables included) and reads
             # the variable back after suspending (async) - each call must see its own frame's value
@@ -838,10 +860,11 @@ class Gen:
             name = self.fresh("mm")
             parts.append(self.macro_def(sc, 1, name))
             self.mod_exports.append((name, "macro", sc.macros[-1][1]))
-        if self.env_globals and self.chance(1, 3):
+        if self.env_globals and self.chance(1, self.pair_den):
             # two macros of one module that share the module's long-lived context: one changes the eval context for
             # the duration of a block in which data is called, the other one's output depends on that eval context
             self.prog.feat("module_macro_pair_eval_context")
+            self.prog.tags.add("module_eval_ctx")
             a_, b_ = self.fresh("mm"), self.fresh("mm")
             call = self.pick(["gf(q)", "gso", "gcx('q')", "gf(q) ~ gso"])
             parts.append(self.tag(f"macro {a_}(q)") + self.tag(f"autoescape {self.pick(['true', 'false'])}")
